@@ -93,3 +93,53 @@ func vrtHarness_C09_reuse() {
 	vrtCover("pool reused", true)
 	vrtAssert("a live connection admits a new query after its query completed, failed or was abandoned", vrtAnd(dials == before, okN == want+k+1))
 }
+
+// A caller gives up while its connection is still being dialled; the dial then succeeds.
+// The new connection carries no query: it is as good as a fresh idle one, so the next query
+// uses it instead of dialling again (capacity is not lost through cancelled callers).
+func vrtHarness_C09_reuseDialCancel() {
+	var conns []*vrtConn
+	released := false
+	dials := 0
+	t := NewReuseConnTransport(ReuseConnOpts{DialContext: func(ctx context.Context) (NetConn, error) {
+		first := false
+		vrtAtomic(func() { dials++; first = dials == 1 })
+		if first {
+			vrtAwait(func() bool { return released }, func() {})
+		}
+		var c *vrtConn
+		vrtAtomic(func() {
+			c = &vrtConn{stream: true}
+			conns = append(conns, c)
+			go func() {
+				vrtDaemon()
+				for i := 0; i < 4; i++ {
+					i := i
+					vrtAwait(func() bool { return len(c.frames) > i }, func() { c.serverSend(c.frames[i]) })
+				}
+			}()
+		})
+		return c, nil
+	}})
+	ctxX, cancelX := context.WithCancel(context.Background())
+	xDone := make(chan error, 1)
+	go func() {
+		_, err := t.ExchangeContext(ctxX, vrtWire(1, 100))
+		xDone <- err
+	}()
+	vrtWaitQuiescent() // the caller waits for its dial
+	vrtAssume(dials == 1)
+	cancelX()
+	vrtAssert("the caller that gave up returned with an error", <-xDone != nil)
+	vrtAtomic(func() { released = true })
+	vrtWaitQuiescent() // the dial has completed: one live connection that carries no query
+	vrtCover("dial completed after its caller had gone", len(conns) == 1)
+	ctx, cancel := context.WithTimeout(context.Background(), 2*time.Second)
+	defer cancel()
+	r, err := t.ExchangeContext(ctx, vrtWire(2, 101))
+	vrtAssert("the next query is answered", vrtAnd(err == nil, err == nil && vrtWireTag(*r) == 101))
+	vrtAssert("on the connection that had been dialled: a live connection without queries admits one (no second dial)", dials == 1)
+	for _, c := range conns {
+		vrtAssert("a non-pipelined connection never carries more than one unanswered query", len(c.frames)-c.replied <= 1)
+	}
+}
